@@ -659,4 +659,78 @@ theorem fromHex_iff (n : Nat) (s : List Nat) (l : Lut) :
       apply Array.ext'
       simpa using this
 
+/-! ## the binary string, digit by digit -/
+
+theorem flatMap_fixed_getElem {α β : Type} (f : α → List β) (wd : Nat) (l : List α)
+    (hall : ∀ a ∈ l, (f a).length = wd) (q r : Nat) (hq : q < l.length) (hr : r < wd) :
+    (l.flatMap f)[q * wd + r]? = (f l[q])[r]? := by
+  induction l generalizing q with
+  | nil => simp at hq
+  | cons a l ih =>
+    simp only [List.flatMap_cons]
+    have ha : (f a).length = wd := hall a (by simp)
+    cases q with
+    | zero =>
+      simp only [Nat.zero_mul, Nat.zero_add, List.getElem_cons_zero]
+      rw [List.getElem?_append_left (by omega)]
+    | succ q =>
+      have hq' : q < l.length := by simpa using hq
+      rw [List.getElem?_append_right (by rw [ha, Nat.succ_mul]; omega)]
+      have : (q + 1) * wd + r - (f a).length = q * wd + r := by rw [ha, Nat.succ_mul]; omega
+      rw [this, ih (fun b hb => hall b (by simp [hb])) q hq']
+      simp
+
+/-- `to_bin_string` writes the table most significant bit first: the digit at distance `m` from
+the right end is the value of the function on assignment `m` -/
+theorem toBin_digit (n : Nat) (t : Array W) (h : WF n t) (m : Nat) (hm : m < 2 ^ n) :
+    (toBin n t)[2 ^ n - 1 - m]? = some (48 + (if bit t m then 1 else 0)) := by
+  obtain ⟨b1, b2⟩ := binWidth_bounds n
+  have e : toBin n t = t.toList.reverse.flatMap (fmtBinWord (binWidth n)) := rfl
+  have hall : ∀ w ∈ t.toList.reverse, (fmtBinWord (binWidth n) w).length = binWidth n := by
+    intro w hw
+    have hw' : w ∈ t.toList := by simpa using hw
+    obtain ⟨k, hk, rfl⟩ := List.getElem_of_mem hw'
+    have hk' : k < t.size := by simpa using hk
+    rw [fmtBinWord_exact _ _ b1 b2 (by simpa using word_fits_bin n t h k hk')]
+    simp [digitsFixed_length]
+  -- word index and bit index
+  have hsz : 2 ^ n = binWidth n * t.size := by
+    rw [h.1]; unfold binWidth
+    by_cases h6 : n ≥ 6
+    · simp only [h6, if_true, tableSize_ge6 h6]
+      have : n = 6 + (n - 6) := by omega
+      conv => lhs; rw [this, Nat.pow_add]
+    · simp [h6, tableSize_le6 (show n ≤ 6 by omega), Nat.shiftLeft_eq]
+  have hwd : m % 64 < binWidth n ∧ m / 64 < t.size ∧ m = (m / 64) * binWidth n + m % 64 := by
+    by_cases h6 : n ≥ 6
+    · have hb : binWidth n = 64 := by unfold binWidth; simp [h6]
+      rw [hb] at hsz ⊢
+      refine ⟨Nat.mod_lt _ (by omega), ?_, by omega⟩
+      omega
+    · have hb : binWidth n = 2 ^ n := by unfold binWidth; simp [h6, Nat.shiftLeft_eq]
+      have : 2 ^ n ≤ 2 ^ 5 := Nat.pow_le_pow_right (by omega) (by omega)
+      have hs1 : t.size = 1 := by rw [h.1, tableSize_le6 (by omega)]
+      have h0 : m / 64 = 0 := by omega
+      have h1 : m % 64 = m := by omega
+      rw [hb, h0, h1, hs1]
+      omega
+  obtain ⟨hr, hq, hmeq⟩ := hwd
+  have hpos : 2 ^ n - 1 - m = (t.size - 1 - m / 64) * binWidth n + (binWidth n - 1 - m % 64) := by
+    rw [hsz]
+    have : t.size = (t.size - 1 - m / 64) + 1 + m / 64 := by omega
+    conv => lhs; rw [this, Nat.mul_add, Nat.mul_add, Nat.mul_one]
+    have e1 : binWidth n * (m / 64) = m / 64 * binWidth n := Nat.mul_comm _ _
+    have e2 : binWidth n * (t.size - 1 - m / 64) = (t.size - 1 - m / 64) * binWidth n := Nat.mul_comm _ _
+    omega
+  rw [e, hpos, flatMap_fixed_getElem _ _ _ hall _ _ (by simp; omega) (by omega)]
+  have hidx : (t.toList.reverse)[t.size - 1 - m / 64]'(by simp; omega) = t[m / 64] := by
+    rw [List.getElem_reverse]
+    simp only [Array.length_toList, Array.getElem_toList]
+    congr 1; omega
+  rw [hidx, binDigit_of_word _ _ b1 b2 (by simpa using word_fits_bin n t h _ hq) _ hr]
+  unfold bit
+  simp [hq]
+
+example : toBin 2 #[0b0110#64] = [48, 49, 49, 48] := by decide
+
 end VoluteModel.Props.C09
